@@ -163,6 +163,18 @@ pub fn canon_fbig<R: Round, const B: Word>(v: &FBig<R, B>) -> Result<(), String>
     }
     Ok(())
 }
+fn canon_repr<const B: Word>(r: &dashu_float::Repr<B>) -> Result<(), String> {
+    if r.is_infinite() {
+        return Ok(());
+    }
+    if r.significand().is_zero() {
+        return if r.exponent() == 0 { Ok(()) } else { Err(format!("zero with exponent: {:?}", r)) };
+    }
+    if (r.significand() % IBig::from(B)).is_zero() {
+        return Err(format!("significand divisible by the base: {:?}", r));
+    }
+    Ok(())
+}
 fn canon_int(_v: &IBig) -> Result<(), String> {
     // the storage invariants of the integer are checked by the structural audit once it sits in the pool
     Ok(())
@@ -276,7 +288,7 @@ fn same_f<R: Round, const B: Word>(a: &FBig<R, B>, b: &FBig<R, B>, human: bool) 
 
 pub fn exec_med(w: &mut World, op: &Op, rest: &str, env: &mut Env) {
     let (a, b, dst) = (ix(op.a), ix(op.b), ix(op.dst));
-    let pool = op.c % 6;
+    let pool = if rest == "serde" { op.c % 8 } else { op.c % 6 };
     match rest {
         // ---------------- serde media with byte-level faults
         "serde" => match pool {
@@ -316,10 +328,37 @@ pub fn exec_med(w: &mut World, op: &Op, rest: &str, env: &mut Env) {
                     env.res(Pool::R, dst);
                 }
             }
-            _ => {
+            5 => {
                 if let Some(v) = serde_step(&w.x[a], op, env, "Relaxed", |x, y, _| x == y, canon_relaxed, |v| text_relaxed(v)) {
                     w.x[dst] = v;
                     env.res(Pool::X, dst);
+                }
+            }
+            // the representation type of the floats has Serialize / Deserialize impls (and a visitor) of its own
+            6 => {
+                if !float_ok(&w.f[a]) {
+                    return env.skip();
+                }
+                let r0 = w.f[a].repr().clone();
+                if let Some(v) = serde_step(&r0, op, env, "Repr<2>", |x, y, _| x == y, canon_repr::<2>, |v| format!("{:?}", v)) {
+                    let f = FBin::from_repr(v, dashu_float::Context::new(0));
+                    if float_ok(&f) {
+                        w.f[dst] = f;
+                        env.res(Pool::F, dst);
+                    }
+                }
+            }
+            _ => {
+                if !float_ok(&w.d[a]) {
+                    return env.skip();
+                }
+                let r0 = w.d[a].repr().clone();
+                if let Some(v) = serde_step(&r0, op, env, "Repr<10>", |x, y, _| x == y, canon_repr::<10>, |v| format!("{:?}", v)) {
+                    let f = FDec::from_repr(v, dashu_float::Context::new(0));
+                    if float_ok(&f) {
+                        w.d[dst] = f;
+                        env.res(Pool::D, dst);
+                    }
                 }
             }
         },
